@@ -11,7 +11,8 @@ import errno
 import os
 import shutil
 
-TRACE = []
+TRACE = []        # operations inside createoutput
+TRACE_ALL = []    # every intercepted operation of the run
 
 
 def install(counter, fault=None):
@@ -43,6 +44,7 @@ def install(counter, fault=None):
                     os._exit(9)
                 raise OSError(errno.ENOSPC, "injected failure at op %d (%s %s)" % (f["op"], kind, a))
         counter["n"] += 1
+        TRACE_ALL.append([kind, a, b])
         if state["in_co"]:
             counter["co"] += 1
             TRACE.append([kind, a, b])
